@@ -369,6 +369,33 @@ def wl_marginals(rng, rec, tier):
     if r is None:
         return {"skipped": True}
     v = r[0]
+    if rng.random() < 0.3:
+        # sampling by decimation: on a tree the reported probability of the sampled
+        # configuration is its exact probability
+        from quimb.tensor.belief_propagation import sample_d2bp
+        kw = {}
+        if rng.random() < 0.3:
+            kw["messages"] = {}
+        out = gen.attempt2(sample_d2bp, psi, seed=int(rng.integers(1 << 30)), tol=1e-10, max_iterations=200, **kw)
+        if out is gen.REJECTED:
+            return {"rejected": True, "what": "sample"}
+        try:
+            config, _, omega = out
+            idx = tuple(int(config[psi.site_ind(s_)]) for s_ in sites)
+            omega = float(omega)
+        except Exception:
+            rec.check("bp", "marginal", False, mech="bp:sample_d2bp:malformed_result", detail={}, sig=("sample_d2bp",))
+            return {"what": "sample"}
+        P = np.abs(np.asarray(v)) ** 2
+        tot = float(P.sum())
+        if tot <= 0 or not np.isfinite(tot):
+            return {"what": "sample", "zero": True}
+        want = float(P[idx]) / tot
+        rec.check("bp", "marginal", abs(omega - want) <= 1e-6 * max(want, 1e-12) + 1e-12,
+                  mech="bp:sample_d2bp:probability_differs_from_exact_on_tree",
+                  detail={"omega": omega, "want": want, "n": n, "messages_given": "messages" in kw},
+                  sig=("sample_d2bp", "messages" in kw))
+        return {"what": "sample", "n": n}
     b = gen.attempt2(D2BP, psi)
     if b is gen.REJECTED:
         return {"rejected": True}
@@ -519,6 +546,174 @@ def wl_index_marginals(rng, rec, tier):
     return desc
 
 
+def wl_object_paths(rng, rec, tier):
+    """the BP objects themselves: every way of reading the value / norm off a
+    converged object (contract, after normalize_tensors / normalize_message_pairs,
+    loop-series and generalized-loop expansions, which have no loop terms on a
+    tree) must give the exact answer, whatever exponent the network stores"""
+    import quimb.tensor.belief_propagation as bp
+    flavour = gen.choice(rng, ["D2BP", "D2BP", "D1BP", "HD1BP", "L1BP", "L2BP"])
+    two = flavour in ("D2BP", "L2BP")
+    dtype = gen.choice(rng, ["float64", "complex128"])
+    positive = flavour in ("D1BP", "HD1BP", "L1BP") and rng.random() < 0.6
+    tn, kind, n = rand_tree_tn(rng, hyper=False, positive=positive, dtype="float64" if positive else dtype, outer=two)
+    ex = float(gen.choice(rng, [0.0, 0.0, 1.5, -2.0, 0.5]))
+    if ex:
+        tn.exponent = ex
+    r = ref_value(tn, squared=two)
+    if r is None or not is_acyclic(tn):
+        return {"skipped": True}
+    ref, scale = r
+    if abs(ref) <= 1e-9 * max(scale, 1e-300):
+        rec.count("bp", "exact_on_tree", "out_of_domain")
+        return {"flavour": flavour, "zero": True}
+    kw = {}
+    if flavour in ("L1BP", "L2BP"):
+        kw["site_tags"] = sorted({t for t in tn.tag_map if t.startswith("T")})
+    b = gen.attempt2(getattr(bp, flavour), tn, **kw)
+    if b is gen.REJECTED:
+        return {"flavour": flavour, "rejected": True}
+    res = gen.attempt2(b.run, max_iterations=300, tol=1e-11)
+    if res is gen.REJECTED or not getattr(b, "converged", False):
+        rec.count("bp", "exact_on_tree", "inconclusive_not_converged")
+        return {"flavour": flavour, "converged": False}
+    steps = []
+    cand = ["contract", "contract"]
+    for nm in ("normalize_tensors", "normalize_message_pairs", "normalize_messages",
+               "contract_loop_series_expansion", "contract_gloop_expand"):
+        if hasattr(b, nm):
+            cand.append(nm)
+    for _ in range(int(rng.integers(2, 6))):
+        nm = gen.choice(rng, cand)
+        steps.append(nm)
+        if nm.startswith("normalize"):
+            if gen.attempt2(getattr(b, nm)) is gen.REJECTED:
+                break
+            continue
+        kk = {}
+        if nm in ("contract_loop_series_expansion", "contract_gloop_expand"):
+            kk["gloops"] = int(rng.integers(2, 5))
+        strip = bool(rng.random() < 0.25)
+        if strip:
+            kk["strip_exponent"] = True
+        out = gen.attempt2(getattr(b, nm), **kk)
+        if out is gen.REJECTED:
+            break
+        try:
+            if strip:
+                m, e = out
+                got = complex(np.asarray(to_numpy(m))) * 10.0 ** float(np.real(np.asarray(to_numpy(e))))
+            else:
+                got = complex(np.asarray(to_numpy(out)))
+        except Exception:
+            rec.check("bp", "exact_on_tree", False, mech=f"bp:{flavour}.{nm}:result_malformed", detail={"steps": steps},
+                      sig=("object", flavour, nm))
+            break
+        ok = abs(got - ref) <= 1e-6 * abs(ref)
+        before = [s_ for s_ in steps[:-1] if s_.startswith(("normalize", "contract_loop"))]
+        rec.check("bp", "exact_on_tree", ok,
+                  mech=f"bp:{flavour}.{nm}{':after_' + before[-1] if before else ''}:not_exact_on_tree",
+                  detail={"got": repr(got), "want": repr(ref), "steps": steps, "stored_exponent": ex, "n": n},
+                  sig=("object", flavour, nm, before[-1] if before else "", bool(ex), strip))
+        if not ok:
+            break
+    return {"flavour": flavour, "kind": kind, "n": n, "exponent": ex, "steps": steps}
+
+
+def wl_gated(rng, rec, tier):
+    """D2BP as a simple-update engine on a tree state: after the object's own
+    gate_ (one- and two-site, untruncated) and a re-run, the norm and the
+    reduced density matrices read from it are those of the gated state"""
+    import quimb.tensor as qtn
+    from quimb.tensor.belief_propagation import D2BP
+    n = int(rng.integers(3, 7))
+    edges = [(int(rng.integers(0, i)), i) for i in range(1, n)]
+    dtype = gen.choice(rng, ["float64", "complex128"])
+    psi = qtn.TN_from_edges_rand(edges, int(rng.integers(1, 4)), phys_dim=2, seed=int(rng.integers(1 << 30)), dtype=dtype)
+    sites = list(psi.sites)
+    b = gen.attempt2(D2BP, psi)
+    if b is gen.REJECTED:
+        return {"rejected": True}
+    # (gating an object that never ran leaves only the gated sites marked for
+    # update, the rest of the messages then stay at their initial values: the
+    # property speaks of converged messages, so converge first)
+    r0 = gen.attempt2(b.run, max_iterations=200, tol=1e-10)
+    if r0 is gen.REJECTED or not getattr(b, "converged", False):
+        rec.count("bp", "exact_on_tree", "inconclusive_not_converged")
+        return {"n": n, "converged": False}
+    ref = psi.copy()
+    ops = []
+
+    def well_conditioned():
+        # two-site gates are applied in the gauge given by the inverse square roots
+        # of the messages: with (numerically) rank-deficient messages - e.g. a leaf
+        # whose bond is larger than its physical dimension - that gauge is singular
+        # and the result is exact only up to its conditioning (not judged)
+        for m in b.messages.values():
+            ev = np.linalg.eigvalsh(np.asarray(to_numpy(m)))
+            if ev[-1] <= 0 or ev[0] < 1e-5 * ev[-1]:
+                return False
+        return True
+
+    for _ in range(int(rng.integers(1, 4))):
+        if not well_conditioned():
+            rec.count("bp", "exact_on_tree", "out_of_domain")
+            return {"n": n, "ops": ops, "ill_conditioned": True}
+        if rng.random() < 0.5:
+            w = (sites[int(rng.integers(0, n))],)
+        else:
+            e = edges[int(rng.integers(0, len(edges)))]
+            w = (sites[e[0]], sites[e[1]]) if rng.random() < 0.5 else (sites[e[1]], sites[e[0]])
+        G = gen.rand_array(rng, (2 ** len(w), 2 ** len(w)), gen.choice(rng, ["float64", dtype]))
+        if rng.random() < 0.4:
+            G = np.linalg.qr(G)[0]
+        if gen.attempt2(b.gate_, G, w) is gen.REJECTED:
+            return {"rejected": True, "ops": ops}
+        rec.busy = True
+        try:
+            ref.gate_(G, w, contract=True)
+        finally:
+            rec.busy = False
+        ops.append(len(w))
+    res = gen.attempt2(b.run, max_iterations=300, tol=1e-11)
+    if res is gen.REJECTED or not getattr(b, "converged", False):
+        rec.count("bp", "exact_on_tree", "inconclusive_not_converged")
+        return {"n": n, "ops": ops, "converged": False}
+    rec.busy = True
+    try:
+        from ..core import dense_of
+        r = dense_of(ref, output=[ref.site_ind(s_) for s_ in sites], max_size=1 << 13)
+    finally:
+        rec.busy = False
+    if r is None:
+        return {"skipped": True}
+    v = np.asarray(r[0], dtype=complex)
+    want = float(np.sum(np.abs(v) ** 2))
+    if not np.isfinite(want) or want <= 1e-12:
+        rec.count("bp", "exact_on_tree", "out_of_domain")
+        return {"n": n, "ops": ops}
+    out = gen.attempt2(b.contract)
+    if out is not gen.REJECTED:
+        try:
+            got = complex(np.asarray(to_numpy(out)))
+        except Exception:
+            got = complex("nan")
+        rec.check("bp", "exact_on_tree", abs(got - want) <= 1e-6 * want, mech="bp:D2BP.contract:after_gate:not_exact_on_tree",
+                  detail={"got": repr(got), "want": want, "ops": ops, "n": n}, sig=("gated", tuple(sorted(set(ops)))))
+    k = int(rng.integers(0, n))
+    rho = gen.attempt2(b.partial_trace, (sites[k],))
+    if rho is not gen.REJECTED and rho is not None:
+        m = np.moveaxis(v, k, 0).reshape(2, -1)
+        w_ = m @ m.conj().T
+        w_ = w_ / np.trace(w_)
+        g = np.asarray(to_numpy(rho), dtype=complex).reshape(2, 2)
+        g = g / np.trace(g)
+        err = float(np.abs(g - w_).max())
+        rec.check("bp", "marginal", err <= 1e-6, mech="bp:D2BP.partial_trace:after_gate:differs_from_exact_on_tree",
+                  detail={"err": err, "ops": ops, "n": n}, sig=("gated_ptr", tuple(sorted(set(ops)))))
+    return {"n": n, "ops": ops}
+
+
 def wl_gauge(rng, rec, tier):
     import quimb.tensor.belief_propagation as bp
     dtype = gen.choice(rng, ["float64", "complex128"])
@@ -542,5 +737,7 @@ WORKLOADS = [
     ("contract", 6, wl_contract),
     ("marginals", 2, wl_marginals),
     ("index_marginals", 2, wl_index_marginals),
+    ("object_paths", 2, wl_object_paths),
+    ("gated", 1, wl_gated),
     ("gauge", 2, wl_gauge),
 ]
